@@ -334,8 +334,8 @@ class RefModel:
             def delayed(e, raw, k=k):
                 d = dsteps[e['idx']]
                 h = hist[e['idx']]
-                if d < 2:
-                    return raw(e)           # delays below two steps: not covered, treat as instantaneous
+                if d < 1:
+                    return raw(e)           # a delay that rounds to zero steps: the current value
                 j = k - d
                 return h[j] if j >= 0 else 0.0
             inp = input_fn(k) if input_fn else None
